@@ -264,7 +264,7 @@ func (e *Exec) evalSpec(x Expr, env *Env) Val {
 		nb := *env
 		nb.bound = true
 		n := &nb
-		var binders []string
+		var binders, guards []string
 		// binder names are a function of the quantified expression: the same clause evaluated at two places (a callee's
 		// postcondition and the caller's identical one) then yields syntactically identical formulas, which the solvers
 		// recognise at once; a name already in scope would capture, so that case falls back to a fresh name
@@ -283,8 +283,22 @@ func (e *Exec) evalSpec(x Expr, env *Env) Val {
 			nbs[name] = true
 			n = n.with(qv.Name, Val{T: Sym(name), S: s, Ty: ty})
 			binders = append(binders, "("+Sym(name)+" "+string(s)+")")
+			// a variable of a Go array type ranges over array *values*: zero outside the bounds (the engine keeps every
+			// array value normalised, so that == on arrays is equality of the Go values)
+			if ty != nil {
+				if arr, ok := ty.Underlying().(*types.Array); ok && s == ArrSort(SInt, SInt) {
+					guards = append(guards, "(arrnorm "+Sym(name)+" "+IntLit(arr.Len())+")")
+				}
+			}
 		}
 		body := e.evalSpec(x.Body, n)
+		if len(guards) > 0 {
+			if x.Forall {
+				body.T = Imp(And(guards...), body.T)
+			} else {
+				body.T = And(append(guards, body.T)...)
+			}
+		}
 		q := "exists"
 		if x.Forall {
 			q = "forall"
@@ -1085,6 +1099,29 @@ func (e *Exec) evalCall(x ECall, env *Env) Val {
 	f := e.Out.DeclareFun("spec$"+sf.Name, sorts, rs)
 	if sf.Body == nil {
 		e.P.Trusted["uninterpreted spec function: "+sf.Name] = true
+	}
+	if rt != nil && rs == ArrSort(SInt, SInt) {
+		if arr, ok := rt.Underlying().(*types.Array); ok {
+			// an uninterpreted function with a Go array result denotes array values (normalised)
+			marker := "arrres$" + sf.Name
+			if _, done := e.Out.declared[Sym(marker)]; !done {
+				e.Out.BeginGlobal()
+				e.Out.Declare(marker, SBool)
+				var binders, names []string
+				for i := range sf.Params {
+					nm := Sym(fmt.Sprintf("r$%s$%d", sf.Name, i))
+					binders = append(binders, "("+nm+" "+string(sorts[i])+")")
+					names = append(names, nm)
+				}
+				app := App(f, names...)
+				if len(binders) > 0 {
+					e.Out.Assert("(forall (" + strings.Join(binders, " ") + ") (! (arrnorm " + app + " " + IntLit(arr.Len()) + ") :pattern (" + app + ")))")
+				} else {
+					e.Out.Assert("(arrnorm " + app + " " + IntLit(arr.Len()) + ")")
+				}
+				e.Out.EndGlobal()
+			}
+		}
 	}
 	return Val{T: App(f, terms...), S: rs, Ty: rt}
 }
